@@ -4,13 +4,16 @@ import json, os, re, glob
 def esc(x): return (x or "").replace("\n"," ").replace("|","/")
 def short(x,n=190):
     x=esc(x); return x if len(x)<=n else x[:n-3]+"..."
-r1=[]; r2=[]
+r1=[]; r2=[]; r3=[]
 for d in sorted(glob.glob('/verif/seeded/*/')):
     name=os.path.basename(d.rstrip('/'))
     try: m=json.load(open(d+'meta.json'))
     except Exception: continue
     if name.endswith('_neutralised'): continue
-    if '-2' in name:
+    if '-3' in name:
+        st=m.get('status','?')
+        r3.append(f"| {name} | {short(m.get('summary'))} | {st.replace('_',' ')} | {esc(m.get('detected_by'))} | `{short(m.get('detected_as'),120)}` | {esc(m.get('note'))} |")
+    elif '-2' in name:
         st=m.get('status','?')
         r2.append(f"| {name} | {short(m.get('summary'))} | {st.replace('_',' ')} | {esc(m.get('detected_by'))} | `{short(m.get('detected_as'),120)}` | {esc(m.get('note'))} |")
     else:
@@ -19,6 +22,7 @@ for d in sorted(glob.glob('/verif/seeded/*/')):
         r1.append(f"| {name} | {short(m.get('summary'))} | {res} (by {by}) | `{short(m.get('detected_as'),120)}` | {esc(m.get('note'))} |")
 from collections import Counter
 c=Counter(json.load(open(d+'meta.json')).get('status') for d in glob.glob('/verif/seeded/*-2?/'))
+c3=Counter(json.load(open(d+'meta.json')).get('status') for d in glob.glob('/verif/seeded/*-3?/'))
 text=f'''## 8. Detection results: seeded changes
 
 ### 8.1 Round 1: one change per property
@@ -80,6 +84,36 @@ blocked-actor detection. (5) **A check binary is built from the tree it last saw
 `try_seed.sh` the binary is a mutant; everything that is meant to judge the unchanged tree
 rebuilds first (one full thorough pass was invalid for this reason and was repeated).
 
+### 8.3 Round 3: three more changes for eight properties
+
+For the eight properties with the widest quantifiers (C01, C04, C05, C07, C08, C09, C11, C16) a
+third round asked for **three** further changes each, with one-line summaries of the earlier
+rounds' changes so that nothing was repeated (a different function or a different failure mode
+was required). 24 changes; archived as `/verif/seeded/<id>-3a`, `-3b`, `-3c`.
+
+| id | seeded change (one line) | status | detected by | detected as | what it took / why not |
+|----|--------------------------|--------|-------------|-------------|------------------------|
+'''+"\n".join(r3)+f'''
+
+Status counts: {dict(c3)}. 7 of 24 were caught by the checks as they stood, 17 needed a
+strengthening - a much lower as-built rate than in rounds 1 and 2, which is the point of asking
+for changes that avoid everything tried before. None of the strengthenings refers to the change
+that prompted it. What round 3 taught:
+(1) **An alphabet entry can be vacuous without anyone noticing** - the scripted "connection
+abort" never reached the client mid-stream, an "open run" had no reply to attach, a compile-failure
+case posted to a route that does not exist (404), a sweep asked the gate under test whether a
+request was valid. Each now has a counter that must be non-zero (mid-stream aborts observed, jobs
+that ended failed, runs refused by the gate) or a machinery failure when the setup request is not
+accepted. (2) **Failure outcomes are inputs too** - jobs that fail after their spawn, runs that
+fail after producing output, tool calls that time out, requests the server refuses: five of the
+misses needed one of these. (3) **What a client can address is an input** - ids of the wrong
+kind, per-request overrides, the alias of a tool, a cancel that arrives while its target is
+queued. (4) **Building the missing case is how the remaining genuine defects were found**: the
+wrong-kind-id sweep found a second way to restart a session's numbering (fix 7779cbe), the
+append-first phase found that the first append after a restart extends a stale cache member (fix
+93ac88a, which also closed a known finding), and the queued-mutation histories made the
+timed-out shell tool reportable (fix 3b04891; until then recorded as a limit of the check).
+
 `tools/seed_regression.sh` re-applies every archived change to /repo, runs the check named in
 its meta.json and reverts; its last output is `/verif/seeded/REGRESSION.md`.
 '''
@@ -88,4 +122,4 @@ s=open(p).read()
 i=s.index("## 8. Detection results: seeded changes")
 s=s[:i]+text
 open(p,'w').write(s)
-print("section 8 regenerated:", len(r1), "round-1 rows,", len(r2), "round-2 rows")
+print("section 8 regenerated:", len(r1), "round-1 rows,", len(r2), "round-2 rows,", len(r3), "round-3 rows")
